@@ -41,6 +41,9 @@ class UpdateExtractor(BaseExtractor):
                 continue
 
             if tgt_flag:
+                if segment.type == "keyword":
+                    # modifier between UPDATE and table name, like ONLY, LOW_PRIORITY, IGNORE
+                    continue
                 if write_table := self.find_table(segment):
                     holder.add_write(write_table)
                 tgt_flag = False
@@ -66,12 +69,14 @@ class UpdateExtractor(BaseExtractor):
                 ):
                     holder.add_read(read_table)
 
-        for tgt_col in columns:
-            tgt_col.parent = list(holder.write)[0]
-            for src_col in tgt_col.to_source_columns(
-                holder.get_alias_mapping_from_table_group(list(holder.read))
-            ):
-                holder.add_column_lineage(src_col, tgt_col)
+        if holder.write:
+            # without a target table identified, there's no column lineage to build
+            for tgt_col in columns:
+                tgt_col.parent = list(holder.write)[0]
+                for src_col in tgt_col.to_source_columns(
+                    holder.get_alias_mapping_from_table_group(list(holder.read))
+                ):
+                    holder.add_column_lineage(src_col, tgt_col)
 
         self.extract_subquery(subqueries, holder)
 
